@@ -71,7 +71,10 @@ fn collect_operands_<'a>(
             collect_operands_(rhs, op_sym, Some(lhs.position.end_offset), result);
         }
         Expression_::Parentheses(paren) => {
-            collect_operands_(&paren.expr, op_sym, delete_from, result);
+            // The first operand inside the parentheses has no left
+            // sibling there, and deleting from outside would remove
+            // the `(` but not the `)`.
+            collect_operands_(&paren.expr, op_sym, None, result);
         }
         _ => {
             result.push(Operand { expr, delete_from });
